@@ -275,6 +275,8 @@ func (e *Engine) extraObligations(prop string, cfg *PropCfg) []*Obl {
 	switch prop {
 	case "C15":
 		return e.c15Obligations(prop)
+	case "C14":
+		return e.c14Obligations(prop)
 	}
 	return nil
 }
